@@ -182,6 +182,12 @@ def handle : List Sexp → Option String
       some (match r with
         | .ok v => s!"ok {v}"
         | .error e => "err " ++ errName e)
+  | [.atom "KSEQOFIDX", .atom which, .atom n, .atom i] => do
+      let n' ← n.toInt?
+      let i' ← i.toInt?
+      some (match (if which == "set" then GenK.seqOfSetIdx n' i' else GenK.seqOfGetIdx n' i') with
+        | .ok v => s!"ok {v}"
+        | .error e => "err " ++ errName e)
   | .atom "KBERBOOLDEC" :: args => do
       let a ← intArgs args
       some (match GenK.intDecode a >>= GenK.berBoolDec with
